@@ -321,7 +321,7 @@ Qed.
 Lemma Good_reject1 x q t st src :
   wf x -> status_ok (CCb q st src) ->
   GoodD (q :: t) t x [CCb q st src]
-        (mkCs (cs x) (co x) (nreq x) (ccbn x) (cchain x) (cpfix x) (pred (creg x))).
+        (mkCs (cs x) (co x) (nreq x) (ccbn x) (cchain x) (cpfix x) (pred (creg x)) (cwr x)).
 Proof.
   intros W S. constructor.
   - exact W.
@@ -360,13 +360,13 @@ Proof.
   intros W Hc Ht H. pose proof (wf_not_closed x W Hc) as Hd.
   unfold tcp_connect in H. destruct (c_req (cs x)) as [r0|] eqn:R.
   { inversion H; subst. apply Good_ret_fail; cbn; auto. unfold UV_EALREADY; lia. }
-  assert (Out : forall tcp fd dl fed cl cd o, tcp = c_tcp (cs x) -> cl = c_closing (cs x) ->
+  assert (Out : forall tcp fd dl fed cl cd o wr, tcp = c_tcp (cs x) -> cl = c_closing (cs x) ->
             cd = c_closed (cs x) ->
             Good x [CRet (nreq x) 0]
-              (mkCs (mkC tcp fd (Some (nreq x)) dl true fed cl cd) o (S (nreq x)) (ccbn x) (cchain x) (cpfix x) (S (creg x)))).
-  { intros tcp fd dl fed cl cd o T1 T2 T3.
+              (mkCs (mkC tcp fd (Some (nreq x)) dl true fed cl cd) o (S (nreq x)) (ccbn x) (cchain x) (cpfix x) (S (creg x)) wr)).
+  { intros tcp fd dl fed cl cd o wr T1 T2 T3.
     pose proof (Good_ret_ok x (mkCs (mkC tcp fd (Some (nreq x)) dl true fed cl cd)
-                    o (S (nreq x)) (ccbn x) (cchain x) (cpfix x) (S (creg x))) W) as G.
+                    o (S (nreq x)) (ccbn x) (cchain x) (cpfix x) (S (creg x)) wr) W) as G.
     unfold lost_of in G. rewrite R in G. cbn [app] in G.
     apply G; cbn; auto; congruence. }
   destruct (c_delayed (cs x) =? 0); cbn [negb] in H.
@@ -472,10 +472,19 @@ Proof.
   - apply Good_same; cbn; auto.
 Qed.
 
+Lemma aux_op_good x o x' e : wf x -> aux_op x o = (x', e) -> Good x e x'.
+Proof.
+  intros W H. unfold aux_op in H.
+  destruct (c_closing (cs x) || negb (c_fd (cs x)) || pending (cs x)); [inversion H; subst; apply Good_refl, W|].
+  destruct o; try (inversion H; subst; apply Good_refl, W);
+    try (destruct (cwr x); inversion H; subst; [apply Good_same; cbn; auto|apply Good_refl, W]).
+  inversion H; subst. apply Good_same; cbn; auto.
+Qed.
+
 Lemma cexec_simple_good x o x' e : wf x -> cexec_simple x o = (x', e) -> Good x e x'.
 Proof.
   intros W H. unfold cexec_simple in H.
-  destruct o; try (eapply cclose_good; eassumption);
+  destruct o; try (eapply aux_op_good; eassumption); try (eapply cclose_good; eassumption);
     try (inversion H; subst; apply Good_refl, W);
     (destruct (c_closing (cs x)) eqn:C; [inversion H; subst; apply Good_refl, W|]);
     (destruct (c_tcp (cs x)) eqn:T; try (inversion H; subst; apply Good_refl, W)).
@@ -500,7 +509,7 @@ Qed.
 Lemma run_cb_good x beh x' e : wf x -> run_cb x beh = (x', e) -> Good x e x'.
 Proof.
   intros W H. unfold run_cb in H.
-  assert (W' : wf (mkCs (cs x) (co x) (nreq x) (S (ccbn x)) (cchain x) (cpfix x) (creg x))) by exact W.
+  assert (W' : wf (mkCs (cs x) (co x) (nreq x) (S (ccbn x)) (cchain x) (cpfix x) (creg x) (cwr x))) by exact W.
   pose proof (cexec_cb_good _ _ _ _ W' H) as G.
   replace e with ([] ++ e) by reflexivity. eapply Good_trans; [|exact G].
   apply Good_same; cbn; auto.
@@ -528,9 +537,9 @@ Proof.
   assert (Step : forall (error : Z) (src : csrc) (s1 : cstream) (o' : corc),
      c_tcp s1 = c_tcp (cs x) -> c_req s1 = c_req (cs x) -> c_closing s1 = c_closing (cs x) ->
      c_closed s1 = c_closed (cs x) -> status_ok (CCb r error src) ->
-     (if error =? UV_EINPROGRESS then (mkCs s1 o' (nreq x) (ccbn x) (cchain x) (cpfix x) (creg x), [])
+     (if error =? UV_EINPROGRESS then (mkCs s1 o' (nreq x) (ccbn x) (cchain x) (cpfix x) (creg x) (cwr x), [])
       else let s2 := mkC (c_tcp s1) (c_fd s1) None (c_delayed s1) false (c_fed s1) (c_closing s1) (c_closed s1) in
-           let (x1, e1) := run_cb (mkCs s2 o' (nreq x) (ccbn x) [] (cpfix x) (pred (creg x))) beh in
+           let (x1, e1) := run_cb (mkCs s2 o' (nreq x) (ccbn x) [] (cpfix x) (pred (creg x)) (cwr x)) beh in
            let (x2, e2) := reject (cchain x) UV_EALREADY SrcRejected x1 beh in
            (x2, CCb r error src :: e1 ++ e2)) = (x', e) ->
      Good x e x').
@@ -539,13 +548,13 @@ Proof.
     - inversion H'; subst. apply Good_same; cbn; auto; congruence.
     - cbv zeta in H'.
       destruct (run_cb (mkCs (mkC (c_tcp s1) (c_fd s1) None (c_delayed s1) false (c_fed s1)
-                                  (c_closing s1) (c_closed s1)) o' (nreq x) (ccbn x) [] (cpfix x) (pred (creg x))) beh)
+                                  (c_closing s1) (c_closed s1)) o' (nreq x) (ccbn x) [] (cpfix x) (pred (creg x)) (cwr x)) beh)
         as [x1 e1] eqn:Er.
       destruct (reject (cchain x) UV_EALREADY SrcRejected x1 beh) as [x2 e2] eqn:Ej.
       inversion H'; subst. change (CCb r error src :: e1 ++ e2) with ([CCb r error src] ++ e1 ++ e2).
       assert (G1 : GoodD [] (cchain x) x [CCb r error src]
                  (mkCs (mkC (c_tcp s1) (c_fd s1) None (c_delayed s1) false (c_fed s1)
-                            (c_closing s1) (c_closed s1)) o' (nreq x) (ccbn x) [] (cpfix x) (pred (creg x)))).
+                            (c_closing s1) (c_closed s1)) o' (nreq x) (ccbn x) [] (cpfix x) (pred (creg x)) (cwr x))).
       { apply Good_cb; cbn; auto; try congruence.
         destruct W as (_ & W2 & _). rewrite T4, T3. intros Hd. apply (W2 Hd). }
       eapply Good_trans; [exact G1|].
